@@ -44,10 +44,16 @@ def load_contracts():
 
 
 def load_known():
+    out = []
     p = os.path.join(VERIF, 'known_findings.json')
-    if not os.path.exists(p):
-        return []
-    return json.load(open(p))
+    if os.path.exists(p):
+        out.extend(json.load(open(p)))
+    d = os.path.join(VERIF, 'known_findings.d')
+    if os.path.isdir(d):
+        for f in sorted(os.listdir(d)):
+            if f.endswith('.json'):
+                out.extend(json.load(open(os.path.join(d, f))))
+    return out
 
 
 def _run_one(args):
